@@ -2,6 +2,8 @@ import Mdsort.Proofs.World
 import Mdsort.Proofs.WorldStdinExample
 import Mdsort.Proofs.WorldWholeEx
 import Mdsort.Proofs.WorldDryF21
+import Mdsort.Proofs.WorldLinTop
+import Mdsort.Proofs.WorldLinEx
 
 /-!
 # C02 - a crash at any instant never leaves a message without an intact copy
@@ -173,5 +175,79 @@ example : Proofs.exEnv.stdinMode = false ∧
     (∀ b ∈ Proofs.wholeExConf, Proofs.WholeNoDiscard Proofs.exEnv Proofs.wholeExOrc b.expr) ∧
     Proofs.WholeReg Proofs.wholeExWorld Proofs.wholeExFiles :=
   ⟨rfl, Proofs.wholeEx_nd, Proofs.wholeEx_reg⟩
+
+/-! ## by LINEAGE (package p12; audit au1, W1): the intact copy is a copy OF THE MESSAGE
+
+`C02_crash_any_prefix`, `C02_power_failure` and the `C02_*_power_failure` theorems above say "some entry holds these bytes";
+a byte-identical other message satisfies them.  The following say that the entry is bound to a file that DESCENDS FROM the
+message's file (`Model/Lineage.lean`; see the section "by lineage" of `Props/C01.lean`).  The old statements follow. -/
+
+/-- **Process kill, by lineage**: under every fault plan, after EVERY call of the execution of an action list (no discard),
+some entry is bound to a file that descends from the message's file `fid` and holds a complete stage - visibly (what a
+process kill leaves) and on stable storage (content as of the last successful `fsync`). -/
+theorem C02_crash_any_prefix_exact (env : PEnv) (ml : MatchList) (st : ExecSt) (w : World) (orig : Bytes) (plan : Plan)
+    (hs : Proofs.Start w st orig) (hd : Proofs.NoDiscard ml) (fid : Nat)
+    (hfid : w.lookup st.src.path st.ms.name = some fid) :
+    ∀ w' ∈ (runPlan plan (matchesExec env ml st) w 0 []).2.2,
+      ∃ p n g f, w'.lookup p n = some g ∧ (lineage w { cur := some fid, org := id } (traceSince w w')).org g = fid ∧
+        w'.file g = some f ∧ f.data ∈ Proofs.stages st.ms orig ∧ f.durable ∈ Proofs.stages st.ms orig :=
+  Proofs.exec_no_loss_exact env ml st w orig plan hs hd { cur := some fid, org := id } fid fid hfid rfl rfl
+
+/-- `C02_crash_any_prefix` and `C02_power_failure` are corollaries. -/
+theorem C02_power_failure_of_exact (env : PEnv) (ml : MatchList) (st : ExecSt) (w : World) (orig : Bytes) (plan : Plan)
+    (hs : Proofs.Start w st orig) (hd : Proofs.NoDiscard ml) :
+    ∀ w' ∈ (runPlan plan (matchesExec env ml st) w 0 []).2.2,
+      Proofs.Intact w' (Proofs.stages st.ms orig) ∧ Proofs.IntactDurable w' (Proofs.stages st.ms orig) := by
+  intro w' hw'
+  obtain ⟨fid, hl, _⟩ := hs.bound
+  obtain ⟨p, n, g, f, h1, _, h3, h4, h5⟩ := C02_crash_any_prefix_exact env ml st w orig plan hs hd fid hl w' hw'
+  exact ⟨⟨p, n, g, f, h1, h3, h4⟩, ⟨p, n, g, f, h1, h3, h5⟩⟩
+
+/-- Non-vacuity on the world with two byte-identical messages (see `Props/C01.lean`, `C01_no_loss_exact`). -/
+example : Proofs.Start Proofs.twinExecWorld Proofs.exSt Proofs.exOrig ∧ Proofs.NoDiscard Proofs.exList ∧
+    Proofs.twinExecWorld.lookup Proofs.exSt.src.path Proofs.exSt.ms.name = some 0 ∧
+    Proofs.twinExecWorld.file 0 = Proofs.twinExecWorld.file 1 :=
+  ⟨Proofs.twin_start, Proofs.ex_noDiscard, by decide, by decide⟩
+
+/-- **A whole run, by lineage**: maildir mode, any configuration without discard, any population consistent with the
+registry: a crash (process kill or power failure) at ANY instant, under EVERY fault plan, leaves for every registered
+message - bound initially to the file `f0` - an entry bound to a file that DESCENDS FROM `f0` and whose visible content and
+whose content on stable storage are complete versions of it.  (As `C02_main_power_failure` this is an invariant of the
+world after every call; the crash states themselves are constructed in `C02_crash_states`.) -/
+theorem C02_main_power_failure_exact (env : PEnv) (orc : EvalOracles) (confOk : Bool) (conf : List ConfBlock) (files : Files)
+    (input : Bytes) (w : World) (plan : Plan) (hm : env.stdinMode = false)
+    (hnd : ∀ b ∈ conf, Proofs.WholeNoDiscard env orc b.expr) (hreg : Proofs.WholeReg w files) :
+    ∀ w' ∈ (runPlan plan (mainP env orc confOk conf files input) w 0 []).2.2,
+      ∀ dir name c f0, files.get dir name = some c → w.lookup dir name = some f0 →
+        ∃ d n g f, w'.lookup d n = some g ∧ originAt w w' g = f0 ∧ w'.file g = some f ∧
+          Proofs.WholeVersion env orc (conf.map (·.expr)) c f.data ∧
+          Proofs.WholeVersion env orc (conf.map (·.expr)) c f.durable := by
+  intro w' hw' dir name c f0 hc hl
+  obtain ⟨d, n, g, f, h1, _, h3, h4, h5, h6⟩ :=
+    Proofs.lin_main_no_loss env orc confOk conf files input w plan hm hnd hreg w' hw' dir name c f0 hc hl
+  exact ⟨d, n, g, f, h1, h3, h4, h5, h6⟩
+
+/-- `C02_main_power_failure` is a corollary. -/
+theorem C02_main_power_failure_of_exact (env : PEnv) (orc : EvalOracles) (confOk : Bool) (conf : List ConfBlock) (files : Files)
+    (input : Bytes) (w : World) (plan : Plan) (hm : env.stdinMode = false)
+    (hnd : ∀ b ∈ conf, Proofs.WholeNoDiscard env orc b.expr) (hreg : Proofs.WholeReg w files) :
+    ∀ w' ∈ (runPlan plan (mainP env orc confOk conf files input) w 0 []).2.2,
+      ∀ dir name c, files.get dir name = some c →
+        ∃ d n fid f, w'.lookup d n = some fid ∧ w'.file fid = some f ∧
+          Proofs.WholeVersion env orc (conf.map (·.expr)) c f.data ∧
+          Proofs.WholeVersion env orc (conf.map (·.expr)) c f.durable := by
+  intro w' hw' dir name c hc
+  obtain ⟨f0, hl, _, _⟩ := hreg dir name c hc
+  obtain ⟨d, n, g, f, h1, _, h3, h4, h5⟩ :=
+    C02_main_power_failure_exact env orc confOk conf files input w plan hm hnd hreg w' hw' dir name c f0 hc hl
+  exact ⟨d, n, g, f, h1, h3, h4, h5⟩
+
+/-- Non-vacuity of `C02_main_power_failure_exact` on the world with two byte-identical messages. -/
+example : Proofs.exEnv.stdinMode = false ∧
+    (∀ b ∈ Proofs.wholeExConf, Proofs.WholeNoDiscard Proofs.exEnv Proofs.wholeExOrc b.expr) ∧
+    Proofs.WholeReg Proofs.twinWorld Proofs.twinFiles ∧
+    Proofs.twinWorld.lookup Proofs.exNew Proofs.exName = some 0 ∧
+    Proofs.twinWorld.lookup Proofs.exNew Proofs.wholeExName2 = some 1 :=
+  ⟨rfl, Proofs.wholeEx_nd, Proofs.twin_reg, by decide, by decide⟩
 
 end Mdsort.Props
